@@ -76,7 +76,7 @@ impl<'a> Exec<'a> {
             let idle = woken.is_empty();
             let pick: Option<usize> = {
                 let mut w = world.borrow_mut();
-                w.tick();
+                w.tick_at("executor loop");
                 let env_n = w.env_count(idle);
                 if idle && env_n == 0 {
                     return End::Quiescent;
